@@ -26,14 +26,15 @@ type lcPlan struct {
 	k       int // first succeeding attempt (1-based); 0 = never
 	extra   int // number of failing responses when k == 0
 	fbOK    bool
-	postAct int // >= 0 action, -1 error
-	pay     int // payload kind of the values prep / exec / fallback return (see payload)
+	postAct int  // >= 0 action, -1 error
+	pay     int  // payload kind of the values prep / exec / fallback return (see payload)
 	sameErr bool // every failing attempt returns the SAME error value
 }
 
 // payload kinds: 0 opaque token, 1 nil, 2 a non-error Result holding a token, 3 a Result
-// holding a Result, 4 typed nil pointer, 5 typed nil map, 6 slice of tokens, 7 int, 8 error Result
-const nPayloads = 9
+// holding a Result, 4 typed nil pointer, 5 typed nil map, 6 slice of tokens, 7 int, 8 error Result,
+// 9 a data value of a type that implements error
+const nPayloads = 10
 
 func (b *sb) payload(kind int) Val {
 	switch kind {
@@ -55,6 +56,8 @@ func (b *sb) payload(kind int) Val {
 		return t
 	case 8:
 		return vErrRes(b.errID())
+	case 9:
+		return vOther("errval")
 	}
 	return b.tok()
 }
@@ -198,6 +201,21 @@ func genC01(r *rng, tier string, st *stats) []taggedScen {
 			}
 		}
 	}
+	// budgets below one: still one attempt
+	for _, N := range []int{0, -1} {
+		for _, k := range userKinds(N, 0, false) {
+			if !hasRetry(k) || k.Exec == "absent" {
+				continue
+			}
+			for _, pl := range []lcPlan{{k: 1, postAct: 5}, {k: 0, extra: 2, fbOK: true, postAct: 1}, {k: 0, extra: 2, fbOK: false, postAct: 5}} {
+				b := newSB()
+				x := b.add(k)
+				b.lifecycle(x, k, pl)
+				b.sc.Root = x
+				out = append(out, taggedScen{sc: b.sc, tags: []string{"kind=" + k.Impl, fmt.Sprintf("N=%d", N), "budget_below_one"}, nontrivial: true})
+			}
+		}
+	}
 	if tier == "thorough" {
 		for i := 0; i < 4000; i++ {
 			out = append(out, randFlowScen(r, 3, "C01", false))
@@ -222,7 +240,7 @@ func genC02(r *rng, tier string, st *stats) []taggedScen {
 		d   NodeDef
 		fbs []string // "-" not applicable, "ok", "err"
 	}
-	for N := 1; N <= maxN; N++ {
+	for N := -1; N <= maxN; N++ {
 		kinds := []kd{
 			{NodeDef{Kind: "user", Impl: "k1", Retry: retry(N, 0), Fb: "default", Prep: "direct", Exec: "direct", Post: "direct"}, []string{"-"}},
 			{NodeDef{Kind: "user", Impl: "k1fb", Retry: retry(N, 0), Fb: "user", Prep: "direct", Exec: "direct", Post: "direct"}, []string{"ok", "err"}},
@@ -240,6 +258,9 @@ func genC02(r *rng, tier string, st *stats) []taggedScen {
 			// every outcome vector in {ok,fail}^(N+1); the node without retry settings gets vectors
 			// of length 3 so that a second attempt would be seen
 			L := N + 1
+			if N < 1 {
+				L = 2 // a budget below one means one attempt
+			}
 			if !hasRetry(k.d) {
 				L = 3
 			}
@@ -337,7 +358,7 @@ func partialKind(r *rng, N int) NodeDef {
 func randFlowScen(r *rng, maxDepth int, tag string, onlyFull bool) taggedScen {
 	b := newSB()
 	depthSeen := 0
-	var reusable []int // inner flows that may be reused at several places
+	var reusable []int      // inner flows that may be reused at several places
 	risky := map[int]bool{} // nodes that may return the default action for ever (no post script)
 	var genFlow func(depth int) int
 	genLeaf := func() int {
@@ -772,6 +793,13 @@ func genC03(r *rng, tier string, st *stats) []taggedScen {
 				}
 				out = append(out, taggedScen{sc: b.sc, tags: []string{"family=exhaustive2x2", fmt.Sprintf("conns=%d", bucket(len(conns)))},
 					nontrivial: true})
+				// the same table, but part of the Connect calls are made after the flow has already run once
+				if idx%7 == 0 && len(conns) >= 2 {
+					late := cloneScen(b.sc)
+					late.Warmup = 1 + idx%(len(conns)-1)
+					late.Runs = 1
+					out = append(out, taggedScen{sc: late, tags: []string{"family=exhaustive2x2", "connect_after_first_run"}, nontrivial: true})
+				}
 			}
 		}
 	}
